@@ -125,6 +125,7 @@ class Ctx:
                     seen.add(v["key"])
                 continue
             real.append(v)
+        dry = bool(os.environ.get("VERIF_DRYRUN"))
         os.makedirs(os.path.join(VERIF, "replay"), exist_ok=True)
         os.makedirs(os.path.join(VERIF, "evidence"), exist_ok=True)
         wall = round(time.time() - self.t0, 2)
@@ -133,8 +134,9 @@ class Ctx:
         print("  obligations=%d discharged=%d violations=%d wall=%.1fs" % (self.obligations, self.discharged, len(real), wall))
         for i, v in enumerate(real):
             rp = os.path.join(VERIF, "replay", "%s-%d.json" % (self.prop, i))
-            with open(rp, "w") as f:
-                json.dump(v, f, indent=1, default=str)
+            if not dry:
+                with open(rp, "w") as f:
+                    json.dump(v, f, indent=1, default=str)
             print("  %s:%s: [%s] %s: %s" % (v["file"], v["line"], v["rule"], v["fn"], v["msg"]))
             print("VIOLATION property=%s replay=%s" % (self.prop, rp))
         cov = {
@@ -159,6 +161,7 @@ class Ctx:
             "property_id": self.prop, "tier": self.tier, "seed": self.seed, "level": "other",
             "coverage": cov, "assumptions": self.assumptions, "wall_s": wall, "violations": len(real),
         }
-        with open(os.path.join(VERIF, "evidence", "%s.json" % self.prop), "w") as f:
-            json.dump(ev, f, indent=1, default=str)
+        if not dry:
+            with open(os.path.join(VERIF, "evidence", "%s.json" % self.prop), "w") as f:
+                json.dump(ev, f, indent=1, default=str)
         return 1 if real else 0
